@@ -340,3 +340,60 @@ def write_evidence(res, violations, tool_error=False):
         ev["coverage"]["notes"] = cov["notes"] + ["TOOL ERROR: run aborted"]
     path = os.path.join(VERIF, "evidence", f"{res.prop}.json")
     json.dump(ev, open(path, "w"), indent=1)
+
+
+# ---------------------------------------------------------------------------------------------
+# generic replay of TLC output through one harness binary in several configurations
+# ---------------------------------------------------------------------------------------------
+def replay_bin(res, binname, cases, cfgs, expect_ops=None, env_extra=None, tag=None, jobs=8):
+    build_all(cfgs, [binname])
+    tag = tag or binname
+    os.makedirs(os.path.join(WORK, res.prop), exist_ok=True)
+
+    def one(cfg):
+        out = os.path.join(WORK, res.prop, f"{tag}.{cfg}.json")
+        if os.path.exists(out):
+            os.remove(out)
+        p = run_bin(cfg, binname, [cases, out], env_extra=env_extra)
+        if p.returncode != 0 or not os.path.exists(out):
+            raise ToolError(f"{binname} replay crashed in {cfg}: rc={p.returncode}\n{p.stdout[-1500:]}\n{p.stderr[-3000:]}")
+        log("  " + p.stdout.strip().splitlines()[-1])
+        return cfg, out
+
+    with ThreadPoolExecutor(max_workers=jobs) as ex:
+        outs = list(ex.map(one, cfgs))
+    for cfg, out in outs:
+        r = res.add_report(out, cfg)
+        if expect_ops:
+            missing = [k for k in expect_ops if r["per_op"].get(k, 0) == 0]
+            if missing:
+                raise ToolError(f"vacuity guard: operations never exercised in {cfg}: {missing[:20]}")
+        if r["cases"] == 0:
+            raise ToolError(f"vacuity guard: no case replayed in {cfg}")
+
+
+def generic_replay(res, path, binname, only=None, env_keys=("ty",)):
+    """Re-execute exactly the case stored in a replay file, in the configuration it failed in."""
+    mm = json.load(open(path))
+    case = mm["case"]
+    os.makedirs(os.path.join(WORK, res.prop), exist_ok=True)
+    cases = os.path.join(WORK, res.prop, "replay.ndjson")
+    open(cases, "w").write(json.dumps(case) + "\n")
+    cfg = mm.get("cfg", "sse2")
+    build_all([cfg], [binname])
+    out = os.path.join(WORK, res.prop, f"replay.{cfg}.json")
+    env = {}
+    if "ty" in mm and "ty" in env_keys:
+        env["HX_ONLY_TY"] = mm["ty"]
+    p = run_bin(cfg, binname, [cases, out], env_extra=env)
+    if not os.path.exists(out):
+        raise ToolError(f"replay crashed: {p.stderr[-2000:]}")
+    r = json.load(open(out))
+    for m in r["mismatches"][:3]:
+        m.pop("case", None)
+        print(json.dumps(m)[:1200])
+    if r["mismatch_count"]:
+        print(f"VIOLATION property={res.prop} replay={path}")
+        return EXIT_VIOLATION
+    print("replay: no mismatch on the current tree")
+    return EXIT_OK
